@@ -739,6 +739,12 @@ static ares_bool_t ares_servers_remove_stale(ares_channel_t *channel,
        * move any queries to new servers */
       ares_slist_node_destroy(snode);
       stale_removed = ARES_TRUE;
+      /* Its queries were moved to other servers.  If one of those sends
+       * failed right away, that server's failure count changed and it was
+       * re-sorted in the list, possibly past snext: nodes in between would be
+       * skipped and stale servers would stay.  Start over. */
+      snode = ares_slist_node_first(channel->servers);
+      continue;
     }
     snode = snext;
   }
